@@ -308,7 +308,7 @@
         BinaryOutputStatus { value: kani::any(), flags: Flags::new(kani::any()), time: cm::any_time() },
         StaticBinaryOutputStatusVariation::Group10Var1, StaticBinaryOutputStatusVariation::Group10Var2, [(10, 1), (10, 2)]);
 
-    // @harness ids=C11,C09,C10,C01 tier=thorough kind=proof units=outstation::database::details::range::writer::RangeWriter::write timeout=600 note="Counter, running header g20v2 (3-byte objects) or Start/Full, next object g20v2 or g20v6 (2 bytes), 20-byte buffer: a partially fitting multi-byte object is not counted and the cursor stays at the end of the last complete object"
+    // @harness ids=C11,C09,C10,C01 tier=quick kind=proof units=outstation::database::details::range::writer::RangeWriter::write timeout=600 note="Counter, running header g20v2 (3-byte objects) or Start/Full, next object g20v2 or g20v6 (2 bytes), 20-byte buffer: a partially fitting multi-byte object is not counted and the cursor stays at the end of the last complete object"
     writer_step_harness!(vk_c11_writer_step_g20v2, 20, 0, 0, 22, false,
         Counter { value: kani::any(), flags: Flags::new(kani::any()), time: cm::any_time() },
         StaticCounterVariation::Group20Var2, StaticCounterVariation::Group20Var6, [(20, 2), (20, 6)]);
